@@ -5,6 +5,13 @@
 
 #include "libphysica/Special_Functions.hpp"
 
+#ifdef LIBPHYSICA_VERIF
+// Verification hook (observation only): largest |multiplier| applied to a row below the pivot during the last Matrix::Inverse() call.
+extern "C" {
+double libphysica_verif_inverse_max_multiplier = 0.0;
+}
+#endif
+
 namespace libphysica
 {
 
@@ -743,6 +750,12 @@ Matrix Matrix::Inverse() const
 				if(i != j)
 				{
 					double ratio = A[j][i] / A[i][i];
+#ifdef LIBPHYSICA_VERIF
+					if(i == 0 && j == 1)
+						libphysica_verif_inverse_max_multiplier = 0.0;
+					if(j > i && fabs(ratio) > libphysica_verif_inverse_max_multiplier)
+						libphysica_verif_inverse_max_multiplier = fabs(ratio);
+#endif
 					for(unsigned int k = 0; k < A.Columns(); k++)
 					{
 						A[j][k] = A[j][k] - ratio * A[i][k];
